@@ -38,15 +38,17 @@ def main():
             if not os.path.exists(patch):
                 continue
             meta = dict(property=pid, change=k, at=time.strftime("%Y-%m-%dT%H:%M:%SZ", time.gmtime()), repo_head=sh("git -C /repo rev-parse --short HEAD")[1].strip())
-            sh("git checkout -q -- . && git clean -qfd", cwd=WT)
-            rc, out = sh(["git", "apply", "--3way", patch], cwd=WT)
+            sh("git reset -q --hard && git clean -qfd", cwd=WT)
+            rc, out = sh(["git", "apply", patch], cwd=WT)
             if rc != 0:
-                rc, out = sh(["git", "apply", patch], cwd=WT)
+                sh("git reset -q --hard && git clean -qfd", cwd=WT)
+                rc, out = sh(["git", "apply", "--3way", patch], cwd=WT)
             meta["applies"] = rc == 0
             if rc != 0:
                 meta["apply_error"] = out[-600:]
                 save(tag, patch, demo, meta)
                 print(tag, "patch does not apply on the current tree")
+                sh("git reset -q --hard && git clean -qfd", cwd=WT)
                 continue
             sh("git reset -q", cwd=WT)
             rc, out = sh("go build ./... && go build -tags verif ./...", cwd=WT)
